@@ -196,6 +196,15 @@ func writeType(b *strings.Builder, t types.Type, depth int) {
 			writeType(b, x.At(i).Type(), depth+1)
 		}
 		b.WriteString(")")
+	case *types.Alias:
+		// `any` and other aliases are their target (interface{} and any are one type)
+		writeType(b, types.Unalias(x), depth+1)
+	case *types.Interface:
+		if x.Empty() {
+			b.WriteString("interface{}")
+		} else {
+			b.WriteString(t.String())
+		}
 	default:
 		b.WriteString(t.String())
 	}
